@@ -92,6 +92,18 @@ def run(chk: Check, model):
             and lss[0] == "call" and T.call_name(lss) == "loss" and lss[2] and lss[2][0] == smp and upd[0].args[:2] == (S("solver"), S("state"))
     chk.add("C18.bounds", "cem_step evaluates and updates with exactly the clipped samples", bool(okc), "cem_step must evaluate loss on, and update with, the output of vmap(gaussian_samples) itself "
             "(a candidate written into the population afterwards bypasses the clip)", chk.loc(f_cs))
+    okr = okc and rcs.ret == ("tuple", (upd[0].term, lss))
+    chk.add("C18.best", "cem_step returns the updated state and the evaluated losses as they are", bool(okr), f"cem_step returns {T.show(rcs.ret)[:200]}, expected (cem_update_mean_stdev(...), losses): "
+            "a state that is conditionally rolled back also rolls back the best candidate found in this generation", chk.loc(f_cs))
+    # the logger sees what was evaluated: candidates and raw losses (its own ranking puts NaN last; a rewritten NaN becomes a best value)
+    f_lu = model.func("evo.LogState.update")
+    chk.used(f_lu.qualname)
+    rlu = SymEval(model).run_function(f_lu)
+    lus = [e for e in rlu.events if e.kind == "call" and e.name == "self.logger.update"]
+    okl = len(lus) == 1 and lus[0].args == (S("self.state"), S("x"), S("fitness")) and not lus[0].kwargs and lus[0].guard == T.TRUE \
+        and rlu.ret == T.mk_replace(S("self"), (("state", lus[0].term),))
+    chk.add("C18.nan", "LogState.update logs the candidates and their losses unchanged", bool(okl), f"LogState.update calls the logger with "
+            f"{[T.show(a)[:60] for a in lus[0].args] if lus else None} and returns {T.show(rlu.ret)[:120]}; expected self.logger.update(self.state, x, fitness) stored as the new state", chk.loc(f_lu))
     # the optimisation loops continue from the state they are given (the best-so-far survives a continued run) and thread it through
     for q, step, carry_proj in (("cem.cem", "rex.cem.cem_step", None), ("evo.evo", "rex.evo.evo_step", 0)):
         fl = model.func(q)
